@@ -126,6 +126,15 @@ Theorem C13_candidates_distinct :
 Proof. exact candidates_distinct_l. Qed.
 Print Assumptions C13_candidates_distinct.
 
+(* completeness: the candidate list offers EVERY partition of the six (season, weekday/weekend) cells
+   into blocks of the form "day type x set of seasons": for any exact cover s, however written, some
+   candidate gives every cell the same block (own = the shape of the only component covering it) *)
+Theorem C13_candidates_complete : forall opts, parse_options seasonal_options = Some opts ->
+  forall s, exact_cover s ->
+  exists s', In s' (candidates opts) /\ forall x, own s' x = own s x.
+Proof. exact candidates_complete_l. Qed.
+Print Assumptions C13_candidates_complete.
+
 (* trim keeps a split other than the unsplit one exactly when the conditions hold (nothing the
    settings allow and the data support is dropped) *)
 Theorem C13_trim_exact : forall f c s, print_split s <> print_split unsplit ->
@@ -247,3 +256,12 @@ Proof.
   cbv zeta. split; [|split; vm_compute; reflexivity].
   apply trim_keep_iff_l; [vm_compute; discriminate|vm_compute; reflexivity].
 Qed.
+
+(* an exact cover written unlike any candidate text (seasons repeated and out of order, components out
+   of order) and the block of summer weekends in it *)
+Example C13_nonvacuous_complete :
+  let s := [(WE, [WI; SU; SU]); (FW, [SH]); (WD, [WI; SU])] in
+  exact_cover s /\ parse_split "we-wi_su_su__fw-sh__wd-wi_su" = Some s /\
+  own s (SU, true) = Some (WE, (true, false, true)) /\
+  own ex_split (SU, true) = own s (SU, true).
+Proof. cbv zeta. split; [apply exact_coverb_spec|]; vm_compute; auto. Qed.
